@@ -266,7 +266,7 @@ fn hostile_case(rng: &mut Rng, rep: &mut Report, i: u64, cells: &[Cell]) {
         }
     }
     rep.nontrivial(common::rng::fnv_str(&label) ^ h.tgt.maps.shape_fingerprint() ^ h.diff.shape_fingerprint().rotate_left(17));
-    if rep.want_sample() && round == 0 && i % 37 == 5 {
+    if rep.want_sample() && round == 0 && h.tgt.maps.classes.len() <= 2 && h.diff.classes.len() <= 2 {
         let exp = ref_apply(&h.diff, &h.tgt, t);
         rep.sample(|| json!({"workload": "hostile", "cell": label, "site": h.site, "target": h.tgt.maps.render(), "diff": h.diff.render(), "reference": format!("{:?} {:?}", exp.verdict(), exp.reason_kinds()), "observed": format!("{:?}", m.seen)}));
     }
@@ -436,6 +436,48 @@ fn history_case(rng: &mut Rng, rep: &mut Report, i: u64) {
     if states.windows(2).any(|w| w[0] != w[1]) { rep.nontrivial(states.iter().fold(0x4849u64, |h, s| h.rotate_left(7) ^ s.maps.shape_fingerprint())); }
 }
 
+/// Hand-written (diff, target) pairs, judged like every other application (memory and text). Case 0 is the
+/// smallest instance of the "below a removed entry" finding, so that its replay file is readable.
+fn example(i: u64) -> (MapsDiff, Tgt) {
+    let s = |x: &str| Some(x.to_string());
+    let mut m = maps::Maps::new(&["official", "named"]);
+    let mut c = maps::Class { names: vec![s("a"), s("A")], comment: s("class doc"), ..Default::default() };
+    c.fields.insert(("f".into(), "I".into()), maps::Field { names: vec![s("f"), s("count")], comment: None });
+    c.methods.insert(("m".into(), "(I)V".into()), maps::Method { names: vec![s("m"), s("run")], comment: None, params: [(1, maps::Param { names: vec![None, s("times")], comment: None })].into() });
+    m.classes.insert("a".into(), c);
+    m.classes.insert("b".into(), maps::Class { names: vec![s("b"), s("B")], ..Default::default() });
+    let tgt = Tgt { maps: m, file_comment: None };
+    let mut d = MapsDiff::default();
+    let field = |a: Act<String>| -> std::collections::BTreeMap<maps::model::MemberKey, maps::FieldDiff> { [(("f".to_string(), "I".to_string()), maps::FieldDiff { name: a, comment: Act::None })].into() };
+    match i {
+        // class a is removed (old name right); below it the diff says field f was called "total" — it is called "count"
+        0 => { d.classes.insert("a".into(), maps::ClassDiff { name: Act::Remove("A".into()), comment: Act::Remove("class doc".into()), fields: field(Act::Remove("total".into())), ..Default::default() }); }
+        // the same diff with the right old name: class a disappears with everything below it, b stays
+        1 => { d.classes.insert("a".into(), maps::ClassDiff { name: Act::Remove("A".into()), comment: Act::Remove("class doc".into()), fields: field(Act::Remove("count".into())), ..Default::default() }); }
+        // the class stays, the field is removed with a wrong old name: must be refused
+        2 => { d.classes.insert("a".into(), maps::ClassDiff { fields: field(Act::Remove("total".into())), ..Default::default() }); }
+        // rename class, rename parameter, add a comment, add a class with a field
+        3 => {
+            let mut cd = maps::ClassDiff { name: Act::Edit("A".into(), "pkg/A2".into()), comment: Act::Edit("class doc".into(), "two\nlines".into()), ..Default::default() };
+            cd.methods.insert(("m".into(), "(I)V".into()), maps::MethodDiff { name: Act::Edit("run".into(), "run".into()), comment: Act::Add("does it".into()), params: [(1, maps::ParamDiff { name: Act::Edit("times".into(), "n".into()), comment: Act::None })].into() });
+            d.classes.insert("a".into(), cd);
+            d.classes.insert("c".into(), maps::ClassDiff { name: Act::Add("C".into()), fields: field(Act::Add("x".into())), ..Default::default() });
+        }
+        // an addition that collides
+        4 => { d.classes.insert("b".into(), maps::ClassDiff { name: Act::Add("B2".into()), ..Default::default() }); }
+        // an action on a class the target does not have
+        _ => { d.classes.insert("zz".into(), maps::ClassDiff { comment: Act::Add("doc".into()), ..Default::default() }); }
+    }
+    (d, tgt)
+}
+const EXAMPLES: u64 = 6;
+fn example_case(rng: &mut Rng, rep: &mut Report, i: u64) {
+    let (d, tgt) = example(i);
+    let (m, _) = apply_case(rep, rng, &d, &tgt, 1, "examples");
+    let want = [Verdict::RefuseBelowRemoved, Verdict::Ok, Verdict::Refuse, Verdict::Ok, Verdict::Refuse, Verdict::Refuse][i as usize];
+    if m.expected != want { eprintln!("HARNESS-ERROR C04 self-check failed: reference says {:?} on hand-written example {i}, expected {want:?}", m.expected); std::process::exit(3); }
+}
+
 fn option_case(rng: &mut Rng, rep: &mut Report) {
     let cfg = GenCfg { comments: CommentClass::Hostile, ..GenCfg::default() };
     let a = maps::gen::comment(rng, cfg.comments);
@@ -572,14 +614,20 @@ fn main() {
     // on a loaded machine), then the bulk under the same closures (workload names with a `+`; the wall-clock budget
     // may end those early).
     let nc = cells.len() as u64;
+    rep.max_samples = 7;
+    run_cases(&ctx, &replay, &mut rep, "examples", EXAMPLES, |rng, rep, i| example_case(rng, rep, i));
     for (suffix, hostile_rounds, option, pairs, history, consistent, random) in [("", 3u64, 40u64, 960u64, 80u64, 400u64, 400u64),
         ("+", ctx.tier.pick(50, 1500), ctx.tier.pick(300, 20_000), ctx.tier.pick(12_000, 400_000), ctx.tier.pick(2_000, 60_000), ctx.tier.pick(6_000, 200_000), ctx.tier.pick(6_000, 200_000))] {
+        // the samples written out come from the coverage phase: 2 hostile, 3 pairs, 2 consistent
         run_cases(&ctx, &replay, &mut rep, &format!("hostile{suffix}"), hostile_rounds * nc, |rng, rep, i| hostile_case(rng, rep, i, &cells));
+        rep.samples.truncate(2);
         run_cases(&ctx, &replay, &mut rep, &format!("option{suffix}"), option, |rng, rep, _| option_case(rng, rep));
         run_cases(&ctx, &replay, &mut rep, &format!("pairs{suffix}"), pairs, |rng, rep, i| pair_case(rng, rep, i));
+        rep.samples.truncate(5);
         run_cases(&ctx, &replay, &mut rep, &format!("history{suffix}"), history, |rng, rep, i| history_case(rng, rep, i));
         run_cases(&ctx, &replay, &mut rep, &format!("consistent{suffix}"), consistent, |rng, rep, i| consistent_case(rng, rep, i));
         run_cases(&ctx, &replay, &mut rep, &format!("random{suffix}"), random, |rng, rep, i| random_case(rng, rep, i));
+        if rep.samples.len() >= 3 { rep.max_samples = rep.samples.len(); }
     }
     let _ = std::fs::remove_dir_all(&dir);
 
